@@ -10,6 +10,7 @@
   * `injected_recorded_once`, `pings_pongs_relayed`, `close_code_reason_recorded`
 -/
 import MitmVerif.Lemmas.C28
+import MitmVerif.Lemmas.C28_Wire
 namespace MitmVerif.Props.C28
 open MitmVerif MitmVerif.C28
 
@@ -54,7 +55,7 @@ private theorem procMsg_inv (fs : Nat) (pol : Policy) (fc inj : Bool) (s : St)
     (h : (procMsg fs pol fc inj s text data ff mf).1.crashed = false) :
     ∃ new, (procMsg fs pol fc inj s text data ff mf).1.msgs = s.msgs ++ new ∧
       ∀ tc, delivered tc (procMsg fs pol fc inj s text data ff mf).2 = expected tc new := by
-  unfold procMsg at h ⊢
+  unfold procMsg finishMsg at h ⊢
   cases mf with
   | false =>
     refine ⟨[], ?_, fun tc => ?_⟩
@@ -262,7 +263,7 @@ private theorem procEv_ok (fs : Nat) (pol : Policy) (fc inj : Bool) (s : St) (e 
   · simp at ho
   · cases e with
     | msg text data ff mf =>
-      simp only [procMsg] at ho
+      simp only [procMsg, finishMsg] at ho
       repeat' split at ho
       all_goals simp at ho
       obtain ⟨_, _, rfl⟩ := ho
@@ -356,7 +357,7 @@ theorem unmodified_keeps_boundaries (fs : Nat) (pol : Policy) (fc inj : Bool) (s
     (hv : text = true → ∀ f ∈ appendLast (s.buf fc) data, san f = f) :
     (procMsg fs pol fc inj s text data ff true).2 =
       [.hookMsg s.msgs.length, .sendMsg (!fc) text (flagged (appendLast (s.buf fc) data))] := by
-  unfold procMsg
+  unfold procMsg finishMsg
   simp only [if_true, hkeep, applyAction, hop]
   simp only [Bool.false_eq_true, if_false, if_true]
   rw [fragmentize_unmodified fs text _ (appendLast_ne_nil _ _) hv]
@@ -411,7 +412,7 @@ private theorem procMsg_msgs_fin (fs : Nat) (pol : Policy) (fc inj : Bool) (s : 
     (procMsg fs pol fc inj s text data ff true).1.msgs =
       s.msgs ++ [applyAction (Msg.mk text fc ((s.buf fc).flatten ++ data) inj false)
                   (pol s.msgs.length (Msg.mk text fc ((s.buf fc).flatten ++ data) inj false))] := by
-  unfold procMsg
+  unfold procMsg finishMsg
   simp only [if_true, appendLast_flatten]
   split
   · simp
